@@ -164,8 +164,22 @@ func (st *Stack) reloadOnce(names []string, reuseOpen bool) error {
 		newTables = append(newTables, rd)
 	}
 
+	// The merged view is built before anything is swapped: if the
+	// tables do not fit together (wrong hash ID, update indices out
+	// of order), the handle keeps its previous, consistent state.
+	var tabs []Table
+	for _, r := range newTables {
+		tabs = append(tabs, r)
+	}
+	m, err := NewMerged(tabs, st.cfg.HashID)
+	if err != nil {
+		return err
+	}
+	m.suppressDeletions = true
+
 	// success. Swap.
 	st.stack = newTables
+	st.merged = m
 	opened = nil
 	for _, old := range cur {
 		old.Close()
@@ -205,17 +219,16 @@ func (st *Stack) reload(reuseOpen bool) error {
 		delay = time.Millisecond*time.Duration(1+rand.Intn(1)) + 2*delay
 	}
 
-	var tabs []Table
-	for _, r := range st.stack {
-		tabs = append(tabs, r)
+	if st.merged == nil {
+		// first load, and no attempt succeeded before the
+		// deadline: as before, the stack starts out empty.
+		m, err := NewMerged(nil, st.cfg.HashID)
+		if err != nil {
+			return err
+		}
+		m.suppressDeletions = true
+		st.merged = m
 	}
-
-	m, err := NewMerged(tabs, st.cfg.HashID)
-	if err != nil {
-		return err
-	}
-	m.suppressDeletions = true
-	st.merged = m
 	return nil
 }
 
